@@ -16,6 +16,39 @@ type Val struct {
 	Tup  []Val
 	Fn   *ssa.Function // statically known function value (closure or function)
 	Bind []Val         // closure bindings
+	// Taint: refs of objects allocated by the function under verification ("protected" objects)
+	// this value may point to or into. Used to decide when such an object escapes.
+	Taint []string
+}
+
+func unionTaint(vs ...Val) []string {
+	var out []string
+	seen := map[string]bool{}
+	for _, v := range vs {
+		for _, t := range v.Taint {
+			if !seen[t] {
+				seen[t] = true
+				out = append(out, t)
+			}
+		}
+		for _, b := range v.Bind {
+			for _, t := range b.Taint {
+				if !seen[t] {
+					seen[t] = true
+					out = append(out, t)
+				}
+			}
+		}
+		for _, e := range v.Tup {
+			for _, t := range e.Taint {
+				if !seen[t] {
+					seen[t] = true
+					out = append(out, t)
+				}
+			}
+		}
+	}
+	return out
 }
 
 type pathStep struct {
@@ -66,10 +99,13 @@ type State struct {
 	heap   map[string]string
 	defers []deferred
 	ghost  map[string]string // unit-level ghost scalars (e.g. range-visited sets)
+	// fresh: objects allocated by this function whose address has not escaped (not stored to the
+	// heap, not passed to code without a contract). Unknown calls cannot modify them.
+	fresh map[string]types.Type
 }
 
 func newState() *State {
-	return &State{locals: map[localKey]Val{}, heap: map[string]string{}, ghost: map[string]string{}}
+	return &State{locals: map[localKey]Val{}, heap: map[string]string{}, ghost: map[string]string{}, fresh: map[string]types.Type{}}
 }
 
 func (s *State) clone() *State {
@@ -83,6 +119,9 @@ func (s *State) clone() *State {
 	for k, v := range s.ghost {
 		n.ghost[k] = v
 	}
+	for k, v := range s.fresh {
+		n.fresh[k] = v
+	}
 	n.defers = append([]deferred{}, s.defers...)
 	return n
 }
@@ -91,10 +130,11 @@ type WriteSet struct {
 	comps  map[string]bool
 	locals map[localKey]bool
 	all    bool
+	unprot map[string]bool
 }
 
 func newWriteSet() *WriteSet {
-	return &WriteSet{comps: map[string]bool{}, locals: map[localKey]bool{}}
+	return &WriteSet{comps: map[string]bool{}, locals: map[localKey]bool{}, unprot: map[string]bool{}}
 }
 
 type Executor struct {
@@ -116,6 +156,16 @@ func (x *Executor) recordLocalWrite(k localKey) {
 		w.locals[k] = true
 	}
 }
+// escape: the objects a value may point into are no longer protected from unknown code.
+func (x *Executor) escape(st *State, vs ...Val) {
+	for _, t := range unionTaint(vs...) {
+		delete(st.fresh, t)
+		for _, w := range x.wstack {
+			w.unprot[t] = true
+		}
+	}
+}
+
 func (x *Executor) recordWriteAll() {
 	for _, w := range x.wstack {
 		w.all = true
@@ -184,6 +234,7 @@ func (x *Executor) mergeStates(ins []incoming) *State {
 			vals = append(vals, v)
 		}
 		if same {
+			first.Taint = unionTaint(vals...)
 			out.locals[k] = first
 			continue
 		}
@@ -203,7 +254,19 @@ func (x *Executor) mergeStates(ins []incoming) *State {
 		for i := len(vals) - 2; i >= 0; i-- {
 			t = fmt.Sprintf("(ite %s %s %s)", ins[i].cond, vals[i].T, t)
 		}
-		out.locals[k] = Val{T: u.define("m$"+k.alloc.Comment, u.sortOf(first.Ty), t), Ty: first.Ty}
+		out.locals[k] = Val{T: u.define("m$"+k.alloc.Comment, u.sortOf(first.Ty), t), Ty: first.Ty, Taint: unionTaint(vals...)}
+	}
+	// protected objects: only those protected on every incoming path
+	for r, ty := range ins[0].st.fresh {
+		all := true
+		for _, in := range ins[1:] {
+			if _, ok := in.st.fresh[r]; !ok {
+				all = false
+			}
+		}
+		if all {
+			out.fresh[r] = ty
+		}
 	}
 	// heap
 	comps := map[string]bool{}
